@@ -14,7 +14,8 @@ RULE = ("cases: exhaustive small ranges + boundary families m^2-1,m^2,m^2+1 (m u
         "{no, rectangle, simplex, small simplex, MyBoundary} boundaries, on each of them every position of the frontier deque drawn on exhaustion "
         "(np.random.choice scripted) + one protocol history with draws and restarts; a_n on 0..599, around squares, random < 2e6 and m^2-1 above 2^52; "
         "upper_bound_a_n on 0..259, block edges a_n(m)-1, a_n(m), a_n(m)+1 and random z < 3e5 with the recorded float guesses; hyperbolic pairing2d/projection2d "
-        "against the model with sympy's factorisation as data (0-6 distinct primes); "
+        "against the model with sympy's factorisation as data (0-6 distinct primes, primality of the bases re-checked in Coq); is_prime_b against sympy.isprime on 0..699 + large values; "
+        "the bracket of upper_bound_a_n for EVERY z <= 16000 (quick) / 100000 (thorough) as one generated Coq theorem; "
         "non-trivial = distinct case whose index/tuple is not all-zero")
 MODELLED = ["PairingToZ1d.__init__ dispatch, PairingToZd glue (d = 2 pair form and general d list form zdn_*), the generic nested "
             "Pairing.pairing/projection (nest_*), PepisKalmar recursion, lazy_indices_product, RosenbergStrong n-d, a_n "
@@ -31,7 +32,8 @@ MODELLED = ["PairingToZ1d.__init__ dispatch, PairingToZd glue (d = 2 pair form a
             "(scipy Halley root finder) as inputs; pairing2d / projection2d with sympy.factorint's result as an input that the model checks (fact_of: "
             "increasing primes, positive exponents, product = n); sympy.multiplicity by repeated division; the float division "
             "floor((z - a_n(n-1)) / prod) of projection2d as integer division (exact below 2^53); np.prod as an unbounded product; "
-            "inv_guess_a and factorint themselves are NOT modelled",
+            "inv_guess_a and factorint themselves are NOT modelled: factorint's result is verified inside Coq (fact_of, and fact_primes of Model/HyperbolicPrimes.v: "
+            "trial-division primality of every base, itself compared with sympy.isprime), inv_guess_a's three guesses are recorded from the real function",
             "functools.cache/lru_cache: modelled as identity on pure functions"]
 ASSUMPTIONS = ["Python int is unbounded (Z); math.isqrt is the integer square root (Z.sqrt)"]
 THEOREM_NOTES = {
@@ -40,13 +42,17 @@ THEOREM_NOTES = {
     "C14_sm_complete_*": "ONE theorem per enumeration (1-d PairingToZ1d; d >= 2 nested Szudzik, d = 2 being the factory's; d >= 2 Rosenberg-Strong): with max_frontier_indices computed by the model of Domain/StatesManager.__init__, the increasing drive returns every in-grid, in-domain, non-origin state exactly once, then exhaustion; the domain is an arbitrary predicate on state increments; origin index 0 <= o < last axis size is assumed only by the frontier entry all_states[o], not by the theorems",
     "C14_sm_protocol": "repaired method (fix a459753: a restart resumes after the last LOGGED state; state = (_last_projected_index, _last_logged_index)): under InversionMethod's protocol (x = rank of the requested admissible state, max_logged = M >= 1, restarts at rank M once M states are stored, repeats after exhaustion) the call with rank x returns the x-th admissible index for EVERY enumeration; C14_sm_step_char characterises every call exactly; the unrepaired method was refuted (F-C14-6, root cause of F-C02-7: 0,2,2,3 instead of 0,2,3,exhaustion on the witness of Example sm_restart_nonvacuous)",
     "C14_zdn*": "PairingToZd for every dimension over Rosenberg-Strong (d >= 1) and nested Szudzik (d >= 2), omit_zero True and False, both directions; C14_nested_* hold for ANY 2-d bijection (Cantor.projection raises for dim != 2 in the code)",
-    "C14_a_n_divisor_summatory": "a_n with the integer square root (the repaired code, fix 21d4376; finding F-C14-7 for the float sqrt) equals sum_{k<=n} floor(n/k); HyperbolicPairing beyond a_n: C14_upper_bound_* and C14_hyperbolic_*_partial",
+    "C14_a_n_divisor_summatory": "a_n with the integer square root (the repaired code, fix 21d4376; finding F-C14-7 for the float sqrt) equals sum_{k<=n} floor(n/k); HyperbolicPairing beyond a_n: C14_upper_bound_*, C14_a_n_block_* and C14_hyperbolic_*",
     "C14_frontier_entries / C14_frontier_draw_char": "exact content of the deque Domain.compute_total_number_of_states_and_frontier returns (n-d, any domain predicate, any pairing that is a bijection): per line of the box the FIRST and LAST in-domain state, or -- whole line outside the domain -- the state of the line at the last axis' origin (fr_axis: an out-of-domain state, defect F-C14-8); a draw returns exactly that state since project inverts pair on every state, the origin (index -1) included",
     "C14_frontier_draw_{szudzik_nd,rs_nd,factory,z1d}": "admissible (in grid, in domain, not the origin) frontier state for EVERY position c, under: every line meets the domain + the origin has in-domain states on both sides of its line (hypotheses evaluated on the implementation by matches_known); unconditional for the factory's Boundary() with 0 < o < last_size - 1; 'frontier' is the code's notion (first/last in-domain state along the LAST axis only); 1-d: the deque is [pair R; pair(-L)] whatever the boundary (ends outside the domain come back: F-C14-8)",
     "C14_fd_protocol": "the draw consumes c only on exhausted calls and leaves (_last_projected_index, _last_logged_index) as sm_step_index leaves them (model: by construction; code: pinned by the fdraw* correspondence of the machine state after every call), so C14_sm_protocol lifts: after any number of exhausted calls and draws the call with rank x still returns the x-th admissible state: the enumeration stays a bijection",
     "C14_frontier_draw_{origin,outside}_refuted": "F-C14-8 on the faithful model (code as is): RectangleBoundary([(-2,2),(-.5,.5)]) on a 5x5 grid, position 4 -> the origin; SimplexBoundary([(-1,1),(-1,1)]), position 0 -> (2,0) outside the domain; the oracle reports both kinds on real objects",
-    "C14_upper_bound_a_n_spec / _unique": "conditional on the validity of the bracket selected from the float guesses (0 <= n_guess; a_n(n_low) <= z if a_n(n_guess) > z; z < a_n(n_high) if a_n(n_guess) < z): NOT proved for all z (Halley iteration in floating point); validated on the implementation's guesses for every z visited (histogram upper_bound_bracket_valid) -- a certified result per visited z, not a for-all bound; numbers.py:58 (z == 0) is the first branch of the model",
-    "C14_hyperbolic_offset_{decode,encode}_partial": "PARTIAL: the mixed-radix code (pairing2d's offset <-> projection2d's x_exponents) is a bijection between exponent vectors r_i <= e_i and [0, prod(1+e_i)); missing for the full round trip of HyperbolicPairing: multiplicity(p_i, x+1) ranges over exactly these vectors when x+1 runs over the divisors of n, x+1 = prod p_i^r_i (unique factorisation), and a_n(n) - a_n(n-1) = prod(1+e_i); the full maps are tied by correspondence (hyp_pair / hyp_proj) and the round-trip oracle",
+    "C14_upper_bound_a_n_spec / _unique": "conditional on the validity of the bracket selected from the float guesses (0 <= n_guess; a_n(n_low) <= z if a_n(n_guess) > z; z < a_n(n_high) if a_n(n_guess) < z): NOT proved for all z (Halley iteration in floating point; asymptotically the bracket width 3 z^(1/4) is the conjectured, unproved, order of the Dirichlet divisor error); certified for every z <= N per run (C14_ub_table_spec) and validated on the implementation's guesses for every other z visited (histogram upper_bound_bracket_valid); numbers.py:58 (z == 0) is the first branch of the model",
+    "C14_hyperbolic_offset_{decode,encode}": "the mixed-radix code (pairing2d's offset <-> projection2d's x_exponents) is a bijection between exponent vectors r_i <= e_i and [0, prod(1+e_i)) (formerly named _partial: they are now steps of the full round trip below)",
+    "C14_divisor_exponent_vector / C14_exponent_vector_unique / C14_multiplicity_spec": "unique factorisation as HyperbolicPairing uses it, for a factorisation that passes the model's checks fact_of (increasing bases > 1, positive exponents, product n) AND fact_primes (every base prime by trial division, C14_is_prime_b_sound): every positive divisor of n is prod p_i^r_i for a vector of the box (Gauss / Euclid via Znumtheory), and sympy.multiplicity (repeated division, model multiplicity) reads the vector back, so distinct vectors give distinct divisors",
+    "C14_a_n_block_is_divisor_count / C14_a_n_block_size": "a_n(n) - a_n(n-1) = number of divisors of n (from a_n = divisor summatory function) = prod (1 + e_i): the block of n has exactly as many indices as the offset code has values",
+    "C14_hyperbolic_{pairing_in_block,proj_pair,pair_proj}": "FULL round trip of HyperbolicPairing on the model, both directions, all x, y, z >= 0: projection2d(pairing2d(x,y)) = (x,y) with upper_bound_a_n returning (x+1)(y+1), and pairing2d(projection2d(z)) = z with non-negative components; hypotheses: the factorisation handed in passes fact_of and fact_primes (sympy.factorint is data, verified inside Coq for every case of the correspondence) and the bracket of upper_bound_a_n is valid (ub_bracket_ok: the float root finder inv_guess_a is not modelled; certified per run for EVERY z <= N by the generated theorem impl_bracket_valid, see C14_ub_table_spec). Float caveat of the code not in the model: floor((z - a_n(n-1)) / np.prod(...)) is a float division, exact below 2^53",
+    "C14_ub_table_spec": "lifting lemma for the certified sweep: a table of (z, n_low, n_guess, n_high) rows whose z column is exactly 0..N and whose rows all pass the boolean bracket test gives, for EVERY z in [0, N], a valid bracket and hence upper_bound_a_n(z) = the n with a_n(n-1) <= z < a_n(n).  Each run instantiates it with the guesses recorded from the implementation's inv_guess_a for all z <= N (N = 16000 quick / 100000 thorough; file build/C14/ubsweep.v, theorem impl_bracket_valid, closed under the global context): a for-all statement on a finite range about THIS machine's scipy/libm, not a theorem about the Halley iteration",
     "C14_pepis_kalmar_*": "pk_pairing2d is generated from the source; pk_projection2d (recursive _aux_k/_aux_j) is the hand model of Model/Pairing.v, tied by correspondence",
 }
 
@@ -235,8 +241,23 @@ def correspond(res):
     n_sweep = 24000 if tier == "quick" else 320000
     seen_pairs = {}
     hyp_bad = 0
+    # the same sweep records the three float guesses upper_bound_a_n gets from inv_guess_a (wrapped, not replaced) for EVERY z <= n_tab:
+    # the table is checked as a whole by a generated Coq theorem (Proofs/C14_UbSweep.v: ub_table_spec), see below
+    from c14_ubsweep import GuessRecorder, sweep_text, first_invalid
+    from rpylib.numerical import numbers as _numbers
+    n_tab = min(n_sweep - 1, 16000 if tier == "quick" else 100000)
+    ub_rows = [(0, 0, 0, 0)]
+    _rec = GuessRecorder()
+    _rec.__enter__()
     for z in range(0, n_sweep):
+        _rec.take()
         x, y = (int(v) for v in hp.projection2d(z))
+        if 0 < z <= n_tab:
+            g3 = _rec.take()
+            if len(g3) != 3:                                  # projection2d answered from its cache: ask upper_bound_a_n itself
+                _numbers.upper_bound_a_n(z)
+                g3 = _rec.take()
+            ub_rows.append((z,) + tuple(g3) if len(g3) == 3 else (z, -1, -1, -1))
         res.count(("hyp", z), nontrivial=z > 0, kind="hyperbolic")
         back = hp.pairing2d(x, y)
         if back != z or x < 0 or y < 0 or (x, y) in seen_pairs:
@@ -245,6 +266,19 @@ def correspond(res):
                 viol("HyperbolicPairing: pairing2d(projection2d(z)) != z (or two indices share a pair)", kind="hyp", z=z, got=[x, y],
                      back=int(back), other_index=seen_pairs.get((x, y)))
         seen_pairs[(x, y)] = z
+    _rec.__exit__(None, None, None)
+    bad_row = first_invalid(ub_rows)
+    res.bump("upper_bound_bracket_sweep", f"all z <= {n_tab} valid on the implementation" if bad_row is None else "invalid bracket")
+    if bad_row is not None:
+        viol("upper_bound_a_n: the bracket selected from the float guesses of inv_guess_a does not contain the n with a_n(n-1) <= z < a_n(n)",
+             kind="ub", z=bad_row[0], guesses=list(bad_row[1:]))
+    from common import coq_eval_file
+    res.case_lemmas += 1
+    rc, out = coq_eval_file(PROP, "ubsweep", sweep_text(ub_rows, n_tab), timeout=900)
+    if rc == 0 and "Closed under the global context" in out:
+        res.case_ok += 1
+    else:
+        res.broke(f"certified bracket sweep: impl_bracket_valid for all z <= {n_tab}", out[-600:])
     for _ in range(12 if tier == "quick" else 60):
         z0 = rng.randrange(n_sweep, 40 * n_sweep)
         for z in range(z0, z0 + 150):
@@ -278,7 +312,7 @@ def correspond(res):
     _coverage_holes(res, rng, viol)
 
     # ---------- Coq side: the model must compute exactly what the implementation returned -----
-    header = ("From Coq Require Import ZArith List Bool.\nFrom RV Require Import Gen.GenPairing Model.Pairing Model.StatesManager Model.Domain Model.FrontierDraw Model.Hyperbolic Proofs.C14_StatesManager.\nOpen Scope Z_scope.\n"
+    header = ("From Coq Require Import ZArith List Bool.\nFrom RV Require Import Gen.GenPairing Model.Pairing Model.StatesManager Model.Domain Model.FrontierDraw Model.Hyperbolic Model.HyperbolicPrimes Proofs.C14_StatesManager.\nOpen Scope Z_scope.\n"
               "Fixpoint sm_lasts (o : Z -> bool) (maxf : Z) (st : Z * Z) (cs : list (Z*Z)) : list (Z * Z) := match cs with nil => nil | c :: r => "
               "let s := sm_step Z (fun i => i) o maxf st (fst c) (snd c) in snd s :: sm_lasts o maxf (snd s) r end.")
     res.case_lemmas += len(groups)
@@ -429,7 +463,7 @@ def _hyperbolic_model(res, rng, viol, groups):
         return lst([f"({zlit(p)}, {zlit(e)})" for p, e in fact])
     groups.append(("hyp_proj", "Z * Z * Z * Z * list (Z * Z) * (Z * Z)",
                    "fun c => match c with (z, lo, g, hi, fact, xy) => let n := upper_bound_a_n z lo g hi in "
-                   "fact_of fact n && zpair_eqb (hyp_projection2d fact n z) xy end",
+                   "fact_of fact n && fact_primes fact && zpair_eqb (hyp_projection2d fact n z) xy end",
                    [f"({zlit(z)}, {zlit(lo)}, {zlit(g)}, {zlit(hi)}, {flit(fact)}, ({zlit(x)}, {zlit(y)}))" for z, lo, g, hi, fact, x, y in pr_cases]))
     pa_cases = []
     xys = [(a, b) for a in range(18) for b in range(18)] + [(rng.randrange(0, 3000), rng.randrange(0, 3000)) for _ in range(120)]
@@ -441,8 +475,14 @@ def _hyperbolic_model(res, rng, viol, groups):
         res.count(("hyp-model", x, y), nontrivial=(x, y) != (0, 0), kind="hyperbolic pairing2d (model)")
         res.bump("hyperbolic_distinct_primes", len(fact))
         pa_cases.append((x, y, fact, z))
+    # the primality checker of the model (hypothesis fact_primes of the round-trip theorems) against sympy.isprime: complete, not only sound
+    from sympy import isprime
+    pr_vals = sorted(set(range(0, 700)) | {3613, 4051, 3613 * 4051, 30029, 30031, 2 ** 31 - 1, 94906249, 94906249 * 3} | {rng.randrange(700, 10 ** 7) for _ in range(150)})
+    for pv in pr_vals:
+        res.count(("isprime", pv), nontrivial=pv > 1, kind="is_prime_b")
+    groups.append(("isprime", "Z * bool", "fun c => Bool.eqb (is_prime_b (fst c)) (snd c)", [f"({zlit(pv)}, {blit(bool(isprime(pv)))})" for pv in pr_vals]))
     groups.append(("hyp_pair", "Z * Z * list (Z * Z) * Z",
-                   "fun c => match c with (x, y, fact, z) => fact_of fact ((x + 1) * (y + 1)) && Z.eqb (hyp_pairing2d fact x y) z end",
+                   "fun c => match c with (x, y, fact, z) => fact_of fact ((x + 1) * (y + 1)) && fact_primes fact && Z.eqb (hyp_pairing2d fact x y) z end",
                    [f"({zlit(x)}, {zlit(y)}, {flit(fact)}, {zlit(z)})" for x, y, fact, z in pa_cases]))
 
 
@@ -925,7 +965,7 @@ def replay(path):
     print("replay: re-run ./check C14 to re-evaluate this class of input")
     return 1
 
-LEVEL_TEXT = ("Proof: 68 Coq theorems (closed under the global context, no axioms). The Cantor, Rosenberg-Strong (2-d and d-dimensional), Szudzik "
+LEVEL_TEXT = ("Proof: 79 Coq theorems (closed under the global context, no axioms). The Cantor, Rosenberg-Strong (2-d and d-dimensional), Szudzik "
               "and Pepis-Kalmar pairings and their projections are mutually inverse on all naturals; the generic nested pairing/projection "
               "for dim > 2 is a bijection for any 2-d bijection; the N<->Z maps, PairingToZd (every d, over Rosenberg-Strong and nested "
               "Szudzik, omit_zero True and False) and PairingToZ1d (every interval [-L,R], every index, hence every call order, omit_zero "
@@ -944,8 +984,11 @@ LEVEL_TEXT = ("Proof: 68 Coq theorems (closed under the global context, no axiom
               "leaves the enumeration's state alone (protocol theorem with draws); with other boundaries the draw returns the origin or an out-of-domain "
               "state: refuted on the model, known finding F-C14-8. Hyperbolic pairing: a_n strictly increasing; upper_bound_a_n (bracket + bisection, "
               "float guesses as inputs) returns the unique n with a_n(n-1) <= z < a_n(n) whenever the bracket is valid (validated per visited z); "
-              "pairing2d/projection2d modelled with the factorisation as checked data. Partial: the full round trip of the hyperbolic pairing "
-              "(unique-factorisation step) and the validity of the float bracket for all z are not proved (correspondence + oracle only).")
+              "pairing2d/projection2d modelled with the factorisation as checked data (product, order, primality of the bases). The full round trip of the "
+              "hyperbolic pairing is proved in both directions for all naturals: divisors of n <-> exponent vectors (unique factorisation), block size "
+              "a_n(n) - a_n(n-1) = number of divisors = prod(1+e_i), pairing2d lands in the block of (x+1)(y+1). The one remaining hypothesis is the validity "
+              "of the float bracket of upper_bound_a_n: certified on every run for ALL z <= 16000 (quick) / 100000 (thorough) by a generated Coq theorem over "
+              "the guesses recorded from the implementation, not proved for all z.")
 LEVEL_NOTE = ("Trusted: Coq kernel + vm_compute; py2coq translator (fail-closed, also cross-checked by running generated definitions "
               "against the implementation); Python ints modelled as Z, math.isqrt as Z.sqrt; caches modelled as identity.")
 TECHNIQUE = "Coq proof (lia/nia over Z, induction over size lists) on py2coq-generated definitions + vm_compute correspondence"
